@@ -167,6 +167,18 @@ Proof.
           end).
 Qed.
 
+Lemma mask_block_delta_nonneg : forall t c m rem tr m' d tr',
+  mask_block t c m rem tr = Ok (m', d, tr') -> 0 <= d.
+Proof.
+  induction t as [|t IHt]; intros c m rem tr m' d tr' Em; simpl in Em; [inversion Em; lia|].
+  repeat (match type of Em with
+          | context [match ?x with _ => _ end] => destruct x eqn:?; try discriminate; eauto
+          end).
+  inversion Em; subst. lia.
+Qed.
+
+Local Arguments mask_block : simpl never.
+
 (* _generate_mask: popcount = num_masked_patches <= num_masked_patches_total is an invariant *)
 Lemma generate_spec : forall fuel c m num total tr m' num' tr',
   Forall draw_ok tr -> popcount m = num ->
@@ -176,11 +188,14 @@ Proof.
   induction fuel as [|f IH]; intros c m num total tr m' num' tr' Htr Hp H; simpl in H;
     destruct (num <? total) eqn:Lt; try discriminate;
     try (inversion H; subst; splits; auto; lia).
+  all: try (inversion H; subst; splits; auto; lia).
   destruct (mask_block 10 c m (total - num) tr) as [[[m1 delta] tr1]| |] eqn:Em; try discriminate.
-  destruct (mask_block_spec _ _ _ _ _ _ _ _ Htr ltac:(lia) Em) as (M1 & M2 & M3 & M4).
+  assert (Hrem : 0 <= total - num) by lia.
+  destruct (mask_block_spec _ _ _ _ _ _ _ _ Htr Hrem Em) as (M1 & M2 & M3 & M4).
   destruct (delta =? 0) eqn:D0.
   - inversion H; subst. splits; auto; try lia.
-  - destruct (IH c m1 (num + delta) total tr1 m' num' tr' M4 ltac:(lia) H) as (K1 & K2 & K3 & K4).
+  - assert (Hp1 : popcount m1 = num + delta) by lia.
+    destruct (IH c m1 (num + delta) total tr1 m' num' tr' M4 Hp1 H) as (K1 & K2 & K3 & K4).
     splits; auto; try lia.
 Qed.
 
@@ -193,14 +208,7 @@ Proof.
   destruct (mask_block 10 c m (total - num) tr) as [[[m1 delta] tr1]| |] eqn:Em; try discriminate.
   - destruct (delta =? 0) eqn:D0; [discriminate|].
     apply IH.
-    assert (0 <= delta).
-    { clear - Em. revert Em. generalize 10%nat as t. intros t. revert m tr.
-      induction t as [|t IHt]; intros m tr Em; simpl in Em; [inversion Em; lia|].
-      repeat (match type of Em with
-              | context [match ?x with _ => _ end] => destruct x eqn:?; try discriminate; eauto
-              end).
-      inversion Em; subst. lia. }
-    lia.
+    pose proof (mask_block_delta_nonneg _ _ _ _ _ _ _ _ Em). lia.
   - exfalso. eapply mask_block_no_fuel; eauto.
 Qed.
 
@@ -270,7 +278,9 @@ Proof.
   inversion G4 as [|? ? Hp _]; subst. simpl in Hp.
   set (all := ms1 ++ repeat (zero_mask c) (Z.to_nat (B * dV c - num_masked_samples c B))) in *.
   assert (Hperm : Permutation (map (fun k => nth k all (zero_mask c)) p) all).
-  { rewrite <- (map_nth_seq all (zero_mask c)) at 2. apply Permutation_map. rewrite <- El. exact Hp. }
+  { apply Permutation_trans with (map (fun k => nth k all (zero_mask c)) (seq 0 (length all))).
+    - apply Permutation_map. rewrite <- El. exact Hp.
+    - rewrite map_nth_seq. apply Permutation_refl. }
   destruct Hc as (C1 & C2 & C3 & C4 & C5 & C6 & C7).
   assert (Hnm : 0 <= num_masked_samples c B <= B * dV c).
   { unfold num_masked_samples. split.
@@ -297,4 +307,770 @@ Proof.
   destruct (gen_masks _ c tr) as [[ms1 tr1]| |]; try congruence.
   destruct tr1 as [|[| | |p|] [|? ?]]; try discriminate.
   destruct (Nat.eqb _ _); discriminate.
+Qed.
+
+(* ======================================================================== *)
+(* I-JEPA                                                                   *)
+(* ======================================================================== *)
+Lemma zseq_length s n : length (zseq s n) = n.
+Proof. revert s. induction n; intros s; simpl; [reflexivity|]. rewrite IHn. reflexivity. Qed.
+
+Lemma zseq_In n : forall s x, In x (zseq s n) <-> s <= x < s + Z.of_nat n.
+Proof.
+  induction n as [|n IH]; intros s x; simpl zseq.
+  - simpl. lia.
+  - simpl In. rewrite IH. lia.
+Qed.
+
+Lemma zseq_app a b : forall s, zseq s (a + b) = zseq s a ++ zseq (s + Z.of_nat a) b.
+Proof.
+  induction a as [|a IH]; intros s.
+  - simpl. f_equal. lia.
+  - change (S a + b)%nat with (S (a + b)). simpl zseq. rewrite IH. simpl. do 3 f_equal. lia.
+Qed.
+
+Lemma zseq_map_add base n : forall s, map (fun j => base + j) (zseq s n) = zseq (base + s) n.
+Proof.
+  induction n as [|n IH]; intros s; simpl; [reflexivity|].
+  rewrite IH. do 2 f_equal. lia.
+Qed.
+
+Lemma nz_app a : forall i b, nz i (a ++ b) = nz i a ++ nz (i + len a) b.
+Proof.
+  induction a as [|x a IH]; intros i b.
+  - simpl. f_equal. unfold len. simpl. lia.
+  - simpl. rewrite IH, len_cons. replace (i + 1 + len a) with (i + (1 + len a)) by lia.
+    destruct x; reflexivity.
+Qed.
+
+Lemma nz_map_all_false (f : Z -> bool) l : forall i, (forall x, In x l -> f x = false) -> nz i (map f l) = [].
+Proof.
+  induction l as [|y l IH]; intros i H; simpl; [reflexivity|].
+  rewrite (H y) by (left; reflexivity). apply IH. intros; apply H; right; assumption.
+Qed.
+
+Lemma nz_map_all_true (f : Z -> bool) n : forall i s,
+  (forall x, s <= x < s + Z.of_nat n -> f x = true) -> nz i (map f (zseq s n)) = zseq i n.
+Proof.
+  induction n as [|n IH]; intros i s H; simpl; [reflexivity|].
+  rewrite (H s) by lia. f_equal. apply IH. intros; apply H; lia.
+Qed.
+
+Lemma strictly_inc_nz l : forall i lo, lo <= i -> strictly_inc lo (nz i l) (i + len l) = true.
+Proof.
+  induction l as [|b l IH]; intros i lo H; simpl nz; [reflexivity|].
+  rewrite len_cons. replace (i + (1 + len l)) with (i + 1 + len l) by lia.
+  destruct b.
+  - simpl strictly_inc. rewrite IH by lia. pose proof (len_nonneg l). lia.
+  - apply IH. lia.
+Qed.
+
+Lemma strictly_inc_firstn l : forall lo hi n,
+  strictly_inc lo l hi = true -> strictly_inc lo (firstn n l) hi = true.
+Proof.
+  induction l as [|x l IH]; intros lo hi n H; destruct n; simpl in *; try reflexivity.
+  apply andb_true_iff in H. destruct H as [H1 H2]. rewrite H1. simpl. apply IH. exact H2.
+Qed.
+
+Lemma strictly_inc_weaken l : forall lo hi hi', hi <= hi' ->
+  strictly_inc lo l hi = true -> strictly_inc lo l hi' = true.
+Proof.
+  induction l as [|x l IH]; intros lo hi hi' Hh H; simpl in *; [reflexivity|].
+  apply andb_true_iff in H. destruct H as [H1 H2]. rewrite (IH _ _ _ Hh H2). lia.
+Qed.
+
+Lemma len_nz l : forall i, len (nz i l) = count_true l.
+Proof.
+  induction l as [|b l IH]; intros i; simpl nz; [reflexivity|].
+  rewrite count_true_cons. destruct b; [rewrite len_cons|]; rewrite IH; lia.
+Qed.
+
+Lemma In_nz l : forall i x, In x (nz i l) -> exists k, x = i + Z.of_nat k /\ nth_error l k = Some true.
+Proof.
+  induction l as [|b l IH]; intros i x H; simpl in H; [contradiction|].
+  destruct b.
+  - destruct H as [<-|H].
+    + exists 0%nat. split; [lia | reflexivity].
+    + destruct (IH _ _ H) as (k & -> & Hk). exists (S k). split; [lia | exact Hk].
+  - destruct (IH _ _ H) as (k & -> & Hk). exists (S k). split; [lia | exact Hk].
+Qed.
+
+Lemma flat_map_nil {A B} (f : A -> list B) l : (forall x, In x l -> f x = []) -> flat_map f l = [].
+Proof.
+  induction l as [|y l IH]; intros H; simpl; [reflexivity|].
+  rewrite (H y) by (left; reflexivity). apply IH. intros; apply H; right; assumption.
+Qed.
+
+Lemma flat_map_ext_in {A B} (f g : A -> list B) l : (forall x, In x l -> f x = g x) -> flat_map f l = flat_map g l.
+Proof.
+  induction l as [|y l IH]; intros H; simpl; [reflexivity|].
+  rewrite (H y) by (left; reflexivity). f_equal. apply IH. intros; apply H; right; assumption.
+Qed.
+
+Lemma flat_map_const_length {A B} (f : A -> list B) L l :
+  (forall x, In x l -> length (f x) = L) -> length (flat_map f l) = (length l * L)%nat.
+Proof.
+  induction l as [|y l IH]; intros H; simpl; [reflexivity|].
+  rewrite app_length, (H y) by (left; reflexivity). rewrite IH; [lia|]. intros; apply H; right; assumption.
+Qed.
+
+Lemma nz_flat_map_rows (f : Z -> list bool) W : (forall x, len (f x) = W) -> forall n s,
+  nz (s * W) (flat_map f (zseq s n)) = flat_map (fun x => nz (x * W) (f x)) (zseq s n).
+Proof.
+  intros HW. induction n as [|n IH]; intros s; simpl; [reflexivity|].
+  rewrite nz_app, HW. replace (s * W + W) with ((s + 1) * W) by lia. rewrite IH. reflexivity.
+Qed.
+
+(* one row of a rectangle *)
+Lemma nz_row base W lf w : 0 <= lf -> 0 <= w -> lf + w <= W ->
+  nz base (map (fun j => in_rng lf j (lf + w)) (zseq 0 (Z.to_nat W))) =
+  map (fun j => base + j) (zseq lf (Z.to_nat w)).
+Proof.
+  intros H1 H2 H3.
+  replace (Z.to_nat W) with (Z.to_nat lf + (Z.to_nat w + Z.to_nat (W - lf - w)))%nat by lia.
+  rewrite !zseq_app, !map_app, !nz_app.
+  rewrite (nz_map_all_false _ (zseq 0 (Z.to_nat lf))).
+  2:{ intros x Hx. apply zseq_In in Hx. unfold in_rng. lia. }
+  rewrite (nz_map_all_false _ (zseq _ (Z.to_nat (W - lf - w)))).
+  2:{ intros x Hx. apply zseq_In in Hx. unfold in_rng. lia. }
+  rewrite app_nil_r. simpl app.
+  rewrite nz_map_all_true.
+  2:{ intros x Hx. unfold in_rng. lia. }
+  rewrite zseq_map_add. f_equal. unfold len. rewrite map_length, zseq_length. lia.
+Qed.
+
+Lemma rect_grid_length c t b l r : length (rect_grid c t b l r) = (Z.to_nat (jH c) * Z.to_nat (jW c))%nat.
+Proof.
+  unfold rect_grid. rewrite (flat_map_const_length _ (Z.to_nat (jW c))).
+  - rewrite zseq_length. reflexivity.
+  - intros. rewrite map_length, zseq_length. reflexivity.
+Qed.
+
+(* zeros; m[top:top+h, lf:lf+w] = 1; flatten().nonzero()  is the list of the rectangle's flat indices *)
+Lemma nz_rect_grid c top lf h w :
+  0 <= top -> 0 <= h -> top + h <= jH c -> 0 <= lf -> 0 <= w -> lf + w <= jW c ->
+  nz 0 (rect_grid c top (top + h) lf (lf + w)) = rect_list (jW c) top lf h w.
+Proof.
+  intros T1 T2 T3 L1 L2 L3. unfold rect_grid, rect_list.
+  set (rowf := fun i => map (fun j => in_rng top i (top + h) && in_rng lf j (lf + w)) (zseq 0 (Z.to_nat (jW c)))).
+  replace (nz 0 (flat_map rowf (zseq 0 (Z.to_nat (jH c)))))
+    with (nz (0 * jW c) (flat_map rowf (zseq 0 (Z.to_nat (jH c))))) by (f_equal; lia).
+  rewrite (nz_flat_map_rows rowf (jW c)).
+  2:{ intros x. unfold rowf, len. rewrite map_length, zseq_length. lia. }
+  replace (Z.to_nat (jH c)) with (Z.to_nat top + (Z.to_nat h + Z.to_nat (jH c - top - h)))%nat by lia.
+  rewrite !zseq_app, !flat_map_app.
+  rewrite (flat_map_nil _ (zseq 0 (Z.to_nat top))).
+  2:{ intros x Hx. apply zseq_In in Hx. unfold rowf. apply nz_map_all_false. intros. unfold in_rng. lia. }
+  rewrite (flat_map_nil _ (zseq _ (Z.to_nat (jH c - top - h)))).
+  2:{ intros x Hx. apply zseq_In in Hx. unfold rowf. apply nz_map_all_false. intros. unfold in_rng. lia. }
+  rewrite app_nil_r. simpl app. rewrite ?Z.add_0_l. rewrite (Z2Nat.id top) by lia.
+  apply flat_map_ext_in. intros x Hx. apply zseq_In in Hx. unfold rowf.
+  rewrite <- (nz_row (x * jW c) (jW c) lf w) by assumption. f_equal.
+  apply map_ext. intros j. unfold in_rng at 1.
+  replace ((top <=? x) && (x <? top + h)) with true by lia. reflexivity.
+Qed.
+
+Lemma rect_list_len W top lf h w : 0 <= h -> 0 <= w -> len (rect_list W top lf h w) = h * w.
+Proof.
+  intros. unfold rect_list, len. rewrite (flat_map_const_length _ (Z.to_nat w)).
+  - rewrite zseq_length. nia.
+  - intros. rewrite map_length, zseq_length. reflexivity.
+Qed.
+
+(* ---- cell-wise facts about the constrained mask ---- *)
+Lemma map2_length_eq {A B C} (f : A -> B -> C) : forall a b, length a = length b -> length (map2 f a b) = length a.
+Proof. induction a as [|x a IHa]; intros [|y b]; simpl; intros; try lia. f_equal. apply IHa. lia. Qed.
+
+Lemma map2_length_le {A B C} (f : A -> B -> C) : forall a b, (length (map2 f a b) <= length a)%nat.
+Proof. induction a as [|x a IHa]; intros [|y b]; simpl; try lia. specialize (IHa b). lia. Qed.
+
+Lemma fold_map2_length_le : forall (xs : list (list bool)) g, (length (fold_left (map2 andb) xs g) <= length g)%nat.
+Proof.
+  induction xs as [|x xs IH]; intros g; simpl; [lia|].
+  specialize (IH (map2 andb g x)). pose proof (map2_length_le andb g x). lia.
+Qed.
+
+Lemma count_andb_negb : forall a g, length a = length g ->
+  count_true a <= count_true (map2 andb a (map negb g)) + count_true g.
+Proof.
+  induction a as [|x a IH]; destruct g as [|y g]; simpl map2; simpl map; intros H; try (simpl in H; lia).
+  - simpl. lia.
+  - rewrite !count_true_cons. assert (Hl : length a = length g) by (simpl in H; lia).
+    specialize (IH g Hl). destruct x, y; simpl andb; simpl negb; cbv iota; lia.
+Qed.
+
+Lemma fold_count : forall gs a ar, Forall (fun g => length g = length a /\ count_true g = ar) gs ->
+  count_true a - Z.of_nat (length gs) * ar <= count_true (fold_left (map2 andb) (map (map negb) gs) a).
+Proof.
+  induction gs as [|g gs IH]; intros a ar H; simpl fold_left; simpl map.
+  - simpl. lia.
+  - inversion H as [|? ? [Hl Hc] Hr]; subst.
+    pose proof (count_andb_negb a g (eq_sym Hl)) as Hcnt.
+    assert (Hlen : length (map2 andb a (map negb g)) = length a)
+      by (apply map2_length_eq; rewrite map_length; congruence).
+    specialize (IH (map2 andb a (map negb g)) (count_true g)).
+    simpl fold_left.
+    assert (Forall (fun g0 => length g0 = length (map2 andb a (map negb g)) /\ count_true g0 = count_true g) gs).
+    { eapply Forall_impl; [|exact Hr]. simpl. intros g0 [? ?]. split; congruence. }
+    specialize (IH H0). simpl length. rewrite Nat2Z.inj_succ. nia.
+Qed.
+
+Lemma nth_error_map2_andb : forall a b k, nth_error (map2 andb a b) k = Some true ->
+  nth_error a k = Some true /\ nth_error b k = Some true.
+Proof.
+  induction a as [|x a IH]; destruct b as [|y b]; intros k H; simpl in H; try (destruct k; discriminate).
+  destruct k; simpl in *.
+  - inversion H. destruct x, y; simpl in *; try discriminate. auto.
+  - apply IH. exact H.
+Qed.
+
+Lemma nth_error_fold_andb : forall xs g k, nth_error (fold_left (map2 andb) xs g) k = Some true ->
+  nth_error g k = Some true /\ forall x, In x xs -> nth_error x k = Some true.
+Proof.
+  induction xs as [|x xs IH]; intros g k H; simpl in H.
+  - split; [exact H | intros ? []].
+  - destruct (IH _ _ H) as [H1 H2]. apply nth_error_map2_andb in H1. destruct H1 as [H1 H3].
+    split; [exact H1|]. intros y [<-|Hy]; auto.
+Qed.
+
+Lemma nth_error_map_negb : forall g k, nth_error (map negb g) k = Some true -> nth_error g k = Some false.
+Proof.
+  induction g as [|y g IH]; intros k H; destruct k; simpl in *; try discriminate.
+  - inversion H. destruct y; simpl in *; try discriminate. reflexivity.
+  - apply IH. exact H.
+Qed.
+
+(* an index that survived all complements is not an index of any of the blocks *)
+Lemma fold_disjoint gs a g : In g gs ->
+  disjoint (nz 0 (fold_left (map2 andb) (map (map negb) gs) a)) (nz 0 g).
+Proof.
+  intros Hg x H1 H2.
+  destruct (In_nz _ _ _ H1) as (k1 & E1 & N1). destruct (In_nz _ _ _ H2) as (k2 & E2 & N2).
+  assert (k1 = k2) by lia. subst k2.
+  destruct (nth_error_fold_andb _ _ _ N1) as [_ Hall].
+  specialize (Hall (map negb g) (in_map _ _ _ Hg)). apply nth_error_map_negb in Hall. congruence.
+Qed.
+
+(* ---- the loops ---- *)
+Definition jN (c : jcfg) : Z := jH c * jW c.
+
+Definition is_grid (c : jcfg) (h w : Z) (g : list bool) : Prop :=
+  exists top lf, 0 <= top /\ top + h <= jH c /\ 0 <= lf /\ lf + w <= jW c /\
+                 g = rect_grid c top (top + h) lf (lf + w).
+
+Lemma is_grid_facts c h w g : jcfg_ok c -> 0 <= h -> 0 <= w -> is_grid c h w g ->
+  len g = jN c /\ count_true g = h * w /\ is_rect (jH c) (jW c) h w (nz 0 g).
+Proof.
+  intros [C1 C2] Hh Hw (top & lf & T1 & T2 & L1 & L2 & ->). splits.
+  - unfold len, jN. rewrite rect_grid_length. nia.
+  - rewrite <- (len_nz _ 0), nz_rect_grid by lia. apply rect_list_len; assumption.
+  - exists top, lf. splits; try lia. apply nz_rect_grid; lia.
+Qed.
+
+Lemma draw_box_spec c bh bw tr top lf tr' : Forall draw_ok tr -> draw_box c bh bw tr = Ok (top, lf, tr') ->
+  0 <= top < jH c - bh /\ 0 <= lf < jW c - bw /\ Forall draw_ok tr'.
+Proof.
+  intros Htr H. unfold draw_box in H.
+  destruct tr as [|[| |lo1 hi1 t| |] tr]; try discriminate.
+  destruct tr as [|[| |lo2 hi2 l| |] tr]; try discriminate.
+  destruct ((lo1 =? 0) && (hi1 =? jH c - bh) && (lo2 =? 0) && (hi2 =? jW c - bw)) eqn:E; try discriminate.
+  inversion H; subst. inversion Htr as [|? ? D1 Htr1]; subst. inversion Htr1 as [|? ? D2 Htr2]; subst.
+  simpl in D1, D2. splits; auto; lia.
+Qed.
+
+(* lower / greatest-lower bound bookkeeping of min_keep_pred, min_keep_enc *)
+Definition glb (mk : Z) (ms : list (list Z)) (mk' : Z) : Prop :=
+  mk' <= mk /\ Forall (fun m => mk' <= len m) ms /\
+  forall k, k <= mk -> Forall (fun m => k <= len m) ms -> k <= mk'.
+
+Lemma glb_nil mk : glb mk [] mk.
+Proof. unfold glb. splits; auto; lia. Qed.
+
+Lemma glb_cons mk m ms mk' : glb (Z.min mk (len m)) ms mk' -> glb mk (m :: ms) mk'.
+Proof.
+  intros (G1 & G2 & G3). unfold glb. splits.
+  - lia.
+  - constructor; [lia | exact G2].
+  - intros k Hk Hf. inversion Hf; subst. apply G3; [lia | assumption].
+Qed.
+
+Lemma glb_app mk a b mk1 mk2 : glb mk a mk1 -> glb mk1 b mk2 -> glb mk (a ++ b) mk2.
+Proof.
+  intros (A1 & A2 & A3) (B1 & B2 & B3). unfold glb. splits.
+  - lia.
+  - apply Forall_app. split; [|exact B2]. eapply Forall_impl; [|exact A2]. simpl. intros; lia.
+  - intros k Hk Hf. apply Forall_app in Hf. destruct Hf as [Fa Fb]. apply B3; auto.
+Qed.
+
+Lemma pred_loop_spec : forall n c ph pw mk tr ms comps mk' tr', Forall draw_ok tr -> 0 <= ph -> 0 <= pw ->
+  pred_loop n c ph pw mk tr = Ok (ms, comps, mk', tr') ->
+  exists gs, length gs = n /\ Forall (is_grid c ph pw) gs /\ ms = map (nz 0) gs /\
+             comps = map (map negb) gs /\ glb mk ms mk' /\ Forall draw_ok tr'.
+Proof.
+  induction n as [|n IH]; intros c ph pw mk tr ms comps mk' tr' Htr Hh Hw H; simpl in H.
+  - inversion H; subst. exists []. splits; auto. apply glb_nil.
+  - unfold sample_block_mask in H.
+    destruct (draw_box c ph pw tr) as [[[top lf] tr1]| |] eqn:Ed; try discriminate.
+    destruct (draw_box_spec _ _ _ _ _ _ _ Htr Ed) as (D1 & D2 & D3).
+    destruct (pred_loop n c ph pw _ tr1) as [[[[ms1 comps1] mk1] tr2]| |] eqn:Ep; try discriminate.
+    inversion H; subst.
+    destruct (IH _ _ _ _ _ _ _ _ _ D3 Hh Hw Ep) as (gs & G1 & G2 & G3 & G4 & G5 & G6).
+    exists (rect_grid c top (top + ph) lf (lf + pw) :: gs). subst. splits; auto.
+    * constructor; auto. exists top, lf. splits; auto; lia.
+    * apply glb_cons. exact G5.
+Qed.
+
+Lemma constrained_spec : forall fuel c eh ew acc tries tr l tr', jcfg_ok c -> Forall draw_ok tr ->
+  constrained fuel c eh ew acc tries tr = Ok (l, tr') ->
+  (exists g', len g' <= jN c /\ l = nz 0 g') /\ Forall draw_ok tr'.
+Proof.
+  induction fuel as [|f IH]; intros c eh ew acc tries tr l tr' Hc Htr H; simpl in H; try discriminate.
+  destruct (draw_box c eh ew tr) as [[[top lf] tr1]| |] eqn:Ed; try discriminate.
+  destruct (draw_box_spec _ _ _ _ _ _ _ Htr Ed) as (D1 & D2 & D3).
+  destruct (jMinKeep c <? _) eqn:E.
+  - inversion H; subst. split; auto. eexists. split; [|reflexivity].
+    pose proof (fold_map2_length_le (firstn (Z.to_nat (Z.max (len acc - tries / jTries c) 0)) acc)
+                  (rect_grid c top (top + eh) lf (lf + ew))) as Hl.
+    rewrite rect_grid_length in Hl. destruct Hc as [C1 C2]. unfold len, jN.
+    apply inj_le in Hl. rewrite Nat2Z.inj_mul, !Z2Nat.id in Hl by lia. exact Hl.
+  - eapply IH; eauto.
+Qed.
+
+(* inside the premise the first try is accepted with every complement applied *)
+Lemma constrained_premise : forall fuel c ph pw eh ew gs tr l tr', jcfg_ok c -> Forall draw_ok tr ->
+  0 <= ph -> 0 <= pw -> 0 <= eh -> 0 <= ew -> Forall (is_grid c ph pw) gs ->
+  eh * ew - Z.of_nat (length gs) * (ph * pw) > jMinKeep c ->
+  constrained fuel c eh ew (map (map negb) gs) 0 tr = Ok (l, tr') ->
+  (forall g, In g gs -> disjoint l (nz 0 g)) /\ length tr = S (S (length tr')).
+Proof.
+  intros fuel c ph pw eh ew gs tr l tr' Hc Htr Hph Hpw Heh Hew Hgs Hprem H.
+  destruct fuel as [|f]; simpl in H; try discriminate.
+  destruct (draw_box c eh ew tr) as [[[top lf] tr1]| |] eqn:Ed; try discriminate.
+  destruct (draw_box_spec _ _ _ _ _ _ _ Htr Ed) as (D1 & D2 & D3).
+  assert (Hlen : length tr = S (S (length tr1))).
+  { unfold draw_box in Ed. destruct tr as [|[| |? ? ?| |] [|[| |? ? ?| |] tr]]; try discriminate.
+    destruct (_ && _) in Ed; try discriminate. inversion Ed; subst. reflexivity. }
+  rewrite Zdiv_0_l in H.
+  replace (Z.to_nat (Z.max (len (map (map negb) gs) - 0) 0)) with (length (map (map negb) gs)) in H
+    by (unfold len; lia).
+  rewrite firstn_all in H.
+  set (g := rect_grid c top (top + eh) lf (lf + ew)) in *.
+  assert (Hg : is_grid c eh ew g) by (exists top, lf; splits; auto; lia).
+  destruct (is_grid_facts _ _ _ _ Hc Heh Hew Hg) as (Lg & Cg & _).
+  assert (Hcnt : count_true g - Z.of_nat (length gs) * (ph * pw)
+                 <= count_true (fold_left (map2 andb) (map (map negb) gs) g)).
+  { apply fold_count. eapply Forall_impl; [|exact Hgs]. simpl. intros g0 Hg0.
+    destruct (is_grid_facts _ _ _ _ Hc Hph Hpw Hg0) as (L0 & C0 & _). unfold len in *. split; [lia | exact C0]. }
+  rewrite len_nz in H.
+  destruct (jMinKeep c <? _) eqn:E; [|lia].
+  inversion H; subst. split; [|exact Hlen].
+  intros g0 Hg0. apply fold_disjoint. exact Hg0.
+Qed.
+
+Lemma enc_loop_spec : forall n c ph pw eh ew gs mk tr ms mk' tr', jcfg_ok c -> Forall draw_ok tr ->
+  0 <= ph -> 0 <= pw -> 0 <= eh -> 0 <= ew -> Forall (is_grid c ph pw) gs ->
+  enc_loop n c eh ew (map (map negb) gs) mk tr = Ok (ms, mk', tr') ->
+  length ms = n /\ Forall (fun e => exists g', len g' <= jN c /\ e = nz 0 g') ms /\
+  (eh * ew - Z.of_nat (length gs) * (ph * pw) > jMinKeep c ->
+   Forall (fun e => forall g, In g gs -> disjoint e (nz 0 g)) ms /\
+   length tr = (2 * n + length tr')%nat) /\
+  glb mk ms mk' /\ Forall draw_ok tr'.
+Proof.
+  induction n as [|n IH]; intros c ph pw eh ew gs mk tr ms mk' tr' Hc Htr Hph Hpw Heh Hew Hgs H; simpl in H.
+  - inversion H; subst. splits; auto. apply glb_nil.
+  - destruct (constrained (length tr) c eh ew _ 0 tr) as [[m tr1]| |] eqn:Ec; try discriminate.
+    destruct (enc_loop n c eh ew _ _ tr1) as [[[ms1 mk1] tr2]| |] eqn:Ee; try discriminate.
+    inversion H; subst.
+    destruct (constrained_spec _ _ _ _ _ _ _ _ _ Hc Htr Ec) as (S1 & S2).
+    destruct (IH _ _ _ _ _ _ _ _ _ _ _ Hc S2 Hph Hpw Heh Hew Hgs Ee) as (K1 & K2 & K3 & K4 & K5).
+    splits; auto.
+    + simpl. lia.
+    + intros Hprem. destruct (K3 Hprem) as [K3a K3b].
+      destruct (constrained_premise _ _ _ _ _ _ _ _ _ _ Hc Htr Hph Hpw Heh Hew Hgs Hprem Ec) as [P1 P2].
+      split; [constructor; auto | lia].
+    + apply glb_cons. exact K4.
+Qed.
+
+Lemma pred_loop_trace_len : forall n c ph pw mk tr ms comps mk' tr',
+  pred_loop n c ph pw mk tr = Ok (ms, comps, mk', tr') -> length tr = (2 * n + length tr')%nat.
+Proof.
+  induction n as [|n IHn]; intros c ph pw mk tr ms comps mk' tr' Ep; simpl in Ep.
+  - inversion Ep; subst. simpl. lia.
+  - unfold sample_block_mask, draw_box in Ep.
+    destruct tr as [|[| |? ? ?| |] [|[| |? ? ?| |] tr]]; try discriminate.
+    destruct (_ && _) in Ep; try discriminate.
+    destruct (pred_loop n c ph pw _ tr) as [[[[ms1 comps1] mk1] tr2]| |] eqn:Ep1; try discriminate.
+    inversion Ep; subst. specialize (IHn _ _ _ _ _ _ _ _ _ Ep1). simpl length. lia.
+Qed.
+
+(* outside the premise: once tries // self.tries reaches the number of complements none is applied any more, so a
+   block with more than min_keep patches is accepted: at most len(acceptable_regions) * self.tries + 1 iterations *)
+Lemma constrained_ends : forall fuel c eh ew acc tries tr, jcfg_ok c -> Forall draw_ok tr ->
+  0 <= eh -> 0 <= ew -> 1 <= jTries c -> 0 <= tries -> jMinKeep c < eh * ew ->
+  Z.max (len acc * jTries c - tries) 0 + 1 <= Z.of_nat fuel ->
+  constrained fuel c eh ew acc tries tr <> OutOfFuel.
+Proof.
+  induction fuel as [|f IH]; intros c eh ew acc tries tr Hc Htr Heh Hew HT Htries Hmk Hf; [lia|].
+  simpl. destruct (draw_box c eh ew tr) as [[[top lf] tr1]| |] eqn:Ed; try discriminate.
+  - destruct (draw_box_spec _ _ _ _ _ _ _ Htr Ed) as (D1 & D2 & D3).
+    destruct (jMinKeep c <? _) eqn:E; [discriminate|].
+    apply IH; auto; try lia.
+    destruct (Z_lt_le_dec tries (len acc * jTries c)) as [Hlt|Hge]; [lia|].
+    exfalso.
+    assert (Hq : len acc <= tries / jTries c) by (apply Z.div_le_lower_bound; lia).
+    replace (Z.to_nat (Z.max (len acc - tries / jTries c) 0)) with 0%nat in E by lia.
+    simpl in E.
+    assert (Hg : is_grid c eh ew (rect_grid c top (top + eh) lf (lf + ew))) by (exists top, lf; splits; auto; lia).
+    destruct (is_grid_facts _ _ _ _ Hc Heh Hew Hg) as (_ & Cg & _).
+    rewrite len_nz, Cg in E. lia.
+  - unfold draw_box in Ed. destruct tr as [|[| | | |] [|[| | | |] ?]]; try discriminate.
+    destruct (_ && _) in Ed; discriminate.
+Qed.
+
+(* what holds of one sample before truncation *)
+Definition sample_inv (c : jcfg) (ph pw : Z) (prem : Prop) (s : sample) : Prop :=
+  exists gs, length gs = jNPred c /\ Forall (is_grid c ph pw) gs /\ fst s = map (nz 0) gs /\
+             length (snd s) = jNEnc c /\
+             Forall (fun e => exists g', len g' <= jN c /\ e = nz 0 g') (snd s) /\
+             (prem -> Forall (fun e => forall g, In g gs -> disjoint e (nz 0 g)) (snd s)).
+
+Lemma batch_loop_spec : forall b c ph pw eh ew mkp mke tr ss mkp' mke' tr', jcfg_ok c -> Forall draw_ok tr ->
+  0 <= ph -> 0 <= pw -> 0 <= eh -> 0 <= ew ->
+  batch_loop b c ph pw eh ew mkp mke tr = Ok (ss, mkp', mke', tr') ->
+  length ss = b /\
+  Forall (sample_inv c ph pw (eh * ew - Z.of_nat (jNPred c) * (ph * pw) > jMinKeep c)) ss /\
+  glb mkp (concat (map fst ss)) mkp' /\ glb mke (concat (map snd ss)) mke' /\
+  (eh * ew - Z.of_nat (jNPred c) * (ph * pw) > jMinKeep c ->
+   length tr = (b * (2 * jNPred c + 2 * jNEnc c) + length tr')%nat) /\
+  Forall draw_ok tr'.
+Proof.
+  induction b as [|b IH]; intros c ph pw eh ew mkp mke tr ss mkp' mke' tr' Hc Htr Hph Hpw Heh Hew H; simpl in H.
+  - inversion H; subst. splits; auto; try apply glb_nil. all: try (intros; simpl; lia).
+  - destruct (pred_loop (jNPred c) c ph pw mkp tr) as [[[[pm comps] mkp1] tr1]| |] eqn:Ep; try discriminate.
+    destruct (pred_loop_spec _ _ _ _ _ _ _ _ _ _ Htr Hph Hpw Ep) as (gs & G1 & G2 & G3 & G4 & G5 & G6).
+    subst comps.
+    destruct (enc_loop (jNEnc c) c eh ew _ mke tr1) as [[[em mke1] tr2]| |] eqn:Ee; try discriminate.
+    destruct (enc_loop_spec _ _ _ _ _ _ _ _ _ _ _ _ Hc G6 Hph Hpw Heh Hew G2 Ee) as (E1 & E2 & E3 & E4 & E5).
+    destruct (batch_loop b c ph pw eh ew mkp1 mke1 tr2) as [[[[ss1 mkp2] mke2] tr3]| |] eqn:Eb; try discriminate.
+    inversion H; subst.
+    destruct (IH _ _ _ _ _ _ _ _ _ _ _ _ Hc E5 Hph Hpw Heh Hew Eb) as (K1 & K2 & K3 & K4 & K5 & K6).
+    rewrite G1 in E3.
+    splits; auto.
+    + simpl. lia.
+    + constructor; auto. exists gs. simpl. splits; auto. intros Hp. apply (E3 Hp).
+    + simpl. eapply glb_app; eauto.
+    + simpl. eapply glb_app; eauto.
+    + intros Hp. destruct (E3 Hp) as [_ L1]. specialize (K5 Hp).
+      pose proof (pred_loop_trace_len _ _ _ _ _ _ _ _ _ _ Ep).
+      lia.
+Qed.
+
+(* ---- truncation to the batch minima and the row layout of the returned tensors ---- *)
+Lemma In_firstn {A} (x : A) : forall n l, In x (firstn n l) -> In x l.
+Proof.
+  induction n as [|n IH]; intros [|y l] H; simpl in H; try contradiction.
+  destruct H as [->|H]; [left; reflexivity | right; apply IH; exact H].
+Qed.
+
+Lemma len_firstn {A} (l : list A) k : 0 <= k <= len l -> len (firstn (Z.to_nat k) l) = k.
+Proof. unfold len. intros H. rewrite firstn_length. lia. Qed.
+
+Lemma In_rows_of n sel ss r : In r (rows_of n sel ss) ->
+  exists j s, (j < n)%nat /\ In s ss /\ r = nth j (sel s) [].
+Proof.
+  unfold rows_of. intros H. apply in_flat_map in H. destruct H as (j & Hj & H).
+  apply in_map_iff in H. destruct H as (s & <- & Hs). apply in_seq in Hj.
+  exists j, s. splits; auto. lia.
+Qed.
+
+Lemma rows_of_length n sel ss : length (rows_of n sel ss) = (n * length ss)%nat.
+Proof.
+  unfold rows_of. rewrite (flat_map_const_length _ (length ss)).
+  - rewrite seq_length. reflexivity.
+  - intros. apply map_length.
+Qed.
+
+Lemma nth_flat_map_const {A} (f : nat -> list A) L d : (forall k, length (f k) = L) ->
+  forall n s j b, (j < n)%nat -> (b < L)%nat ->
+  nth (j * L + b) (flat_map f (seq s n)) d = nth b (f (s + j)%nat) d.
+Proof.
+  intros Hf. induction n as [|n IH]; intros s j b Hj Hb; [lia|].
+  simpl seq. simpl flat_map. destruct j as [|j].
+  - simpl Nat.mul. simpl Nat.add. rewrite app_nth1 by (rewrite Hf; exact Hb). rewrite Nat.add_0_r. reflexivity.
+  - rewrite app_nth2 by (rewrite Hf; simpl; lia). rewrite Hf.
+    replace (S j * L + b - L)%nat with (j * L + b)%nat by (simpl; lia).
+    rewrite IH by lia. f_equal. f_equal. lia.
+Qed.
+
+(* row j*B + b of the returned tensor is mask j of sample b *)
+Lemma nth_rows_of n sel ss j b d : (j < n)%nat -> (b < length ss)%nat ->
+  nth (j * length ss + b) (rows_of n sel ss) [] = nth j (sel (nth b ss d)) [].
+Proof.
+  intros Hj Hb. unfold rows_of.
+  rewrite (nth_flat_map_const (fun j => map (fun s => nth j (sel s) []) ss) (length ss) [])
+    by (auto; intros; apply map_length).
+  simpl Nat.add.
+  rewrite (nth_indep _ [] ((fun s => nth j (sel s) []) d)) by (rewrite map_length; exact Hb).
+  apply (map_nth (fun s => nth j (sel s) [])).
+Qed.
+
+Definition tsample_ok (c : jcfg) (ph pw mkp mke : Z) (prem : Prop) (s : sample) : Prop :=
+  length (fst s) = jNPred c /\ length (snd s) = jNEnc c /\
+  Forall (fun l => strictly_inc 0 l (jN c) = true) (fst s ++ snd s) /\
+  Forall (is_rect (jH c) (jW c) ph pw) (fst s) /\
+  Forall (fun l => len l = mkp) (fst s) /\ Forall (fun l => len l = mke) (snd s) /\
+  (prem -> sample_disjoint s).
+
+Lemma truncate_ok c ph pw mkp mke prem s : jcfg_ok c -> 0 <= ph -> 0 <= pw ->
+  sample_inv c ph pw prem s -> ph * pw <= mkp -> Forall (fun m => mkp <= len m) (fst s) ->
+  0 <= mke -> Forall (fun e => mke <= len e) (snd s) ->
+  tsample_ok c ph pw mkp mke prem (truncate mkp mke s).
+Proof.
+  intros Hc Hph Hpw (gs & G1 & G2 & G3 & G4 & G5 & G6) Hmkp Hlow Hmke Hlowe.
+  assert (Hfacts : Forall (fun m => len m = ph * pw /\ strictly_inc 0 m (jN c) = true /\
+                                    is_rect (jH c) (jW c) ph pw m) (fst s)).
+  { rewrite G3. apply Forall_forall. intros m Hm. apply in_map_iff in Hm. destruct Hm as (g & <- & Hg).
+    rewrite Forall_forall in G2. destruct (is_grid_facts _ _ _ _ Hc Hph Hpw (G2 g Hg)) as (F1 & F2 & F3).
+    splits; auto.
+    - rewrite len_nz. exact F2.
+    - pose proof (strictly_inc_nz g 0 0 ltac:(lia)) as Hs. rewrite F1 in Hs. exact Hs. }
+  assert (Hfst : map (firstn (Z.to_nat mkp)) (fst s) = fst s).
+  { rewrite <- (map_id (fst s)) at 2. apply map_ext_in. intros m Hm.
+    rewrite Forall_forall in Hfacts. destruct (Hfacts m Hm) as (F1 & _).
+    apply firstn_all2. unfold len in F1. lia. }
+  unfold tsample_ok, truncate. simpl fst. simpl snd. rewrite Hfst. splits.
+  - rewrite G3, map_length. exact G1.
+  - rewrite map_length. exact G4.
+  - apply Forall_app. split.
+    + eapply Forall_impl; [|exact Hfacts]. simpl. intros m (_ & F & _). exact F.
+    + apply Forall_forall. intros e He. apply in_map_iff in He. destruct He as (e0 & <- & He0).
+      rewrite Forall_forall in G5. destruct (G5 e0 He0) as (g' & Lg & ->).
+      apply strictly_inc_firstn. apply (strictly_inc_weaken _ 0 (0 + len g')); [lia|].
+      apply strictly_inc_nz. lia.
+  - eapply Forall_impl; [|exact Hfacts]. simpl. intros m (_ & _ & F). exact F.
+  - apply Forall_forall. intros m Hm. rewrite Forall_forall in Hfacts, Hlow.
+    destruct (Hfacts m Hm) as (F1 & _). specialize (Hlow m Hm). lia.
+  - apply Forall_forall. intros e He. apply in_map_iff in He. destruct He as (e0 & <- & He0).
+    rewrite Forall_forall in Hlowe. specialize (Hlowe e0 He0). apply len_firstn. lia.
+  - intros Hp e p He Hpin. simpl fst in Hpin. simpl snd in He.
+    apply in_map_iff in He. destruct He as (e0 & <- & He0).
+    rewrite G3 in Hpin. apply in_map_iff in Hpin. destruct Hpin as (g & <- & Hg).
+    specialize (G6 Hp). rewrite Forall_forall in G6.
+    intros x Hx. apply In_firstn in Hx. exact (G6 e0 He0 g Hg x Hx).
+Qed.
+
+Lemma Forall_concat_elim {A} (P : A -> Prop) (ls : list (list A)) l :
+  Forall P (concat ls) -> In l ls -> Forall P l.
+Proof.
+  intros H Hl. rewrite Forall_forall in *. intros x Hx. apply H. apply in_concat. exists l. auto.
+Qed.
+
+Lemma block_sizes_bounds c sizes ctr ph pw eh ew : jcfg_ok c -> sizes_ok sizes ->
+  block_sizes c sizes ctr = ((ph, pw), (eh, ew)) ->
+  0 <= ph <= jH c - 1 /\ 0 <= pw <= jW c - 1 /\ 0 <= eh <= jH c - 1 /\ 0 <= ew <= jW c - 1.
+Proof.
+  intros [C1 C2] Hs H. unfold block_sizes in H. specialize (Hs (ctr + 1)).
+  destruct (sizes (ctr + 1)) as [[[a b] e] f]. unfold clamp_size in H. inversion H; subst. lia.
+Qed.
+
+(* the I-JEPA collator's output meets the I-JEPA part of the property *)
+Lemma ijepa_collate_ok : forall c sizes ctr B tr o,
+  jcfg_ok c -> sizes_ok sizes -> 0 <= B -> Forall draw_ok tr ->
+  ijepa_collate c sizes ctr B tr = Ok o ->
+  (o_psize o, o_esize o) = block_sizes c sizes ctr /\ o_ctr o = ctr + 1 /\
+  ijepa_ok c B (o_psize o) (o_esize o) (o_enc o) (o_pred o) /\
+  (premise c (o_psize o) (o_esize o) ->
+   length tr = S (Z.to_nat B * (2 * jNPred c + 2 * jNEnc c))).
+Proof.
+  intros c sizes ctr B tr o Hc Hs HB Htr H. unfold ijepa_collate in H.
+  destruct tr as [|[| | | |s] tr0]; try discriminate.
+  destruct (negb (s =? ctr + 1)); try discriminate.
+  destruct (block_sizes c sizes ctr) as [[ph pw] [eh ew]] eqn:Ebs.
+  destruct (block_sizes_bounds _ _ _ _ _ _ _ Hc Hs Ebs) as (Bph & Bpw & Beh & Bew).
+  inversion Htr as [|? ? _ Htr0]; subst.
+  destruct (batch_loop (Z.to_nat B) c ph pw eh ew (jH c * jW c) (jH c * jW c) tr0)
+    as [[[[ss mkp] mke] tr1]| |] eqn:Eb; try discriminate.
+  destruct tr1; try discriminate. inversion H; subst o; clear H. simpl.
+  assert (Hph : 0 <= ph) by lia. assert (Hpw : 0 <= pw) by lia.
+  assert (Heh : 0 <= eh) by lia. assert (Hew : 0 <= ew) by lia.
+  destruct (batch_loop_spec _ _ _ _ _ _ _ _ _ _ _ _ _ Hc Htr0 Hph Hpw Heh Hew Eb)
+    as (K1 & K2 & K3 & K4 & K5 & K6).
+  set (prem := eh * ew - Z.of_nat (jNPred c) * (ph * pw) > jMinKeep c) in *.
+  destruct K3 as (P1 & P2 & P3). destruct K4 as (E1 & E2 & E3).
+  fold (jN c) in *.
+  assert (Hmkp : ph * pw <= mkp).
+  { apply P3; [unfold jN; destruct Hc; nia|].
+    apply Forall_forall. intros m Hm. apply in_concat in Hm. destruct Hm as (ms & Hms & Hm).
+    apply in_map_iff in Hms. destruct Hms as (s0 & <- & Hs0).
+    rewrite Forall_forall in K2. destruct (K2 s0 Hs0) as (gs & _ & G2 & G3 & _).
+    rewrite G3 in Hm. apply in_map_iff in Hm. destruct Hm as (g & <- & Hg).
+    rewrite Forall_forall in G2.
+    destruct (is_grid_facts _ _ _ _ Hc Hph Hpw (G2 g Hg)) as (_ & F2 & _).
+    rewrite len_nz. lia. }
+  assert (Hmke : 0 <= mke).
+  { apply E3; [unfold jN; destruct Hc; nia|]. apply Forall_forall. intros; apply len_nonneg. }
+  assert (Hss : Forall (tsample_ok c ph pw mkp mke prem) (map (truncate mkp mke) ss)).
+  { apply Forall_forall. intros s' Hs'. apply in_map_iff in Hs'. destruct Hs' as (s0 & <- & Hs0).
+    rewrite Forall_forall in K2.
+    apply truncate_ok; auto; try lia.
+    - apply (Forall_concat_elim _ _ _ P2). apply in_map. exact Hs0.
+    - apply (Forall_concat_elim _ _ _ E2). apply in_map. exact Hs0. }
+  set (ss' := map (truncate mkp mke) ss) in *.
+  assert (Hlen : length ss' = Z.to_nat B) by (unfold ss'; rewrite map_length; exact K1).
+  rewrite Forall_forall in Hss.
+  assert (Hrow : forall (sel : sample -> list (list Z)) n (P : list Z -> Prop),
+            (forall s, In s ss' -> length (sel s) = n /\ Forall P (sel s)) -> Forall P (rows_of n sel ss')).
+  { intros sel n P HP. apply Forall_forall. intros r Hr. apply In_rows_of in Hr.
+    destruct Hr as (j & s0 & Hj & Hs0 & ->). destruct (HP s0 Hs0) as [L F].
+    rewrite Forall_forall in F. apply F. apply nth_In. lia. }
+  splits; auto.
+  unfold ijepa_ok. simpl fst. simpl snd. splits.
+  - unfold len. rewrite rows_of_length, Hlen. lia.
+  - unfold len. rewrite rows_of_length, Hlen. lia.
+  - apply Forall_app. split.
+    + apply Hrow. intros s0 Hs0. destruct (Hss s0 Hs0) as (T1 & T2 & T3 & _).
+      apply Forall_app in T3. destruct T3. split; auto.
+    + apply Hrow. intros s0 Hs0. destruct (Hss s0 Hs0) as (T1 & T2 & T3 & _).
+      apply Forall_app in T3. destruct T3. split; auto.
+  - exists mke. apply Hrow. intros s0 Hs0. destruct (Hss s0 Hs0) as (T1 & T2 & T3 & T4 & T5 & T6 & T7). auto.
+  - exists mkp. apply Hrow. intros s0 Hs0. destruct (Hss s0 Hs0) as (T1 & T2 & T3 & T4 & T5 & T6 & T7). auto.
+  - apply Hrow. intros s0 Hs0. destruct (Hss s0 Hs0) as (T1 & T2 & T3 & T4 & T5 & T6 & T7). auto.
+  - intros Hp j k b Hj Hk Hb. unfold row.
+    assert (Hbn : (b < length ss')%nat) by lia.
+    replace (Z.to_nat (Z.of_nat j * B + Z.of_nat b)) with (j * length ss' + b)%nat by (rewrite Hlen; nia).
+    replace (Z.to_nat (Z.of_nat k * B + Z.of_nat b)) with (k * length ss' + b)%nat by (rewrite Hlen; nia).
+    rewrite (nth_rows_of _ snd ss' j b ([], [])) by assumption.
+    rewrite (nth_rows_of _ fst ss' k b ([], [])) by assumption.
+    pose proof (nth_In ss' ([], []) Hbn) as Hin.
+    destruct (Hss _ Hin) as (T1 & T2 & T3 & T4 & T5 & T6 & T7).
+    apply (T7 Hp); apply nth_In; lia.
+  - intros Hp. simpl length. f_equal. specialize (K5 Hp). rewrite K5. simpl. lia.
+Qed.
+
+(* ---- the small ones ---- *)
+Lemma ijepa_sizes_step : forall c sizes ctr B1 B2 tr1 tr2 o1 o2,
+  ijepa_collate c sizes ctr B1 tr1 = Ok o1 -> ijepa_collate c sizes ctr B2 tr2 = Ok o2 ->
+  o_psize o1 = o_psize o2 /\ o_esize o1 = o_esize o2 /\ o_ctr o1 = ctr + 1 /\ o_ctr o2 = ctr + 1.
+Proof.
+  intros c sizes ctr B1 B2 tr1 tr2 o1 o2 H1 H2. unfold ijepa_collate in *.
+  destruct tr1 as [|[| | | |s1] tr1]; try discriminate. destruct tr2 as [|[| | | |s2] tr2]; try discriminate.
+  destruct (negb (s1 =? ctr + 1)); try discriminate. destruct (negb (s2 =? ctr + 1)); try discriminate.
+  destruct (block_sizes c sizes ctr) as [[ph pw] [eh ew]].
+  destruct (batch_loop (Z.to_nat B1) _ _ _ _ _ _ _ tr1) as [[[[ss1 mkp1] mke1] t1]| |]; try discriminate.
+  destruct (batch_loop (Z.to_nat B2) _ _ _ _ _ _ _ tr2) as [[[[ss2 mkp2] mke2] t2]| |]; try discriminate.
+  destruct t1; try discriminate. destruct t2; try discriminate.
+  inversion H1; inversion H2; subst. simpl. auto.
+Qed.
+
+Lemma dino_call_passthrough : forall (A : Type) c (batch : A) has_ctx B tr b' r,
+  dino_call c batch has_ctx B tr = Ok (b', r) -> b' = batch /\ (has_ctx = false -> r = None /\ tr = []).
+Proof.
+  intros A c batch has_ctx B tr b' r H. unfold dino_call in H. destruct has_ctx.
+  - destruct (dino_collate c B tr); try discriminate. inversion H; subst. split; [reflexivity | discriminate].
+  - destruct tr; try discriminate. inversion H; subst. auto.
+Qed.
+
+Lemma ijepa_call_passthrough : forall (A : Type) c sizes ctr (batch : A) has_ctx B tr b' ctr' r,
+  ijepa_call c sizes ctr batch has_ctx B tr = Ok (b', ctr', r) ->
+  b' = batch /\ (has_ctx = false -> r = None /\ tr = [] /\ ctr' = ctr).
+Proof.
+  intros A c sizes ctr batch has_ctx B tr b' ctr' r H. unfold ijepa_call in H. destruct has_ctx.
+  - destruct (ijepa_collate c sizes ctr B tr); try discriminate. inversion H; subst. split; [reflexivity | discriminate].
+  - destruct tr; try discriminate. inversion H; subst. auto.
+Qed.
+
+(* ---- the statements of Property.v ---- *)
+Lemma P_dino_nonempty_masks_le_budget : forall c B tr ms, dcfg_ok c -> 0 <= B -> Forall draw_ok tr ->
+  dino_collate c B tr = Ok ms -> count_nonempty ms <= budget c B.
+Proof. intros c B tr ms Hc HB Htr H. exact (proj1 (proj2 (proj2 (dino_collate_ok _ _ _ _ Hc HB Htr H)))). Qed.
+
+Lemma P_dino_no_mask_exceeds_upper_ratio : forall c B tr ms, dcfg_ok c -> 0 <= B -> Forall draw_ok tr ->
+  dino_collate c B tr = Ok ms -> Forall (fun m => popcount m <= cap c) ms.
+Proof. intros c B tr ms Hc HB Htr H. exact (proj2 (proj2 (proj2 (dino_collate_ok _ _ _ _ Hc HB Htr H)))). Qed.
+
+Lemma P_dino_masks_have_grid_size : forall c B tr ms, dcfg_ok c -> 0 <= B -> Forall draw_ok tr ->
+  dino_collate c B tr = Ok ms -> len ms = B * dV c /\ Forall (well_shaped (dH c) (dW c)) ms.
+Proof.
+  intros c B tr ms Hc HB Htr H. destruct (dino_collate_ok _ _ _ _ Hc HB Htr H) as (A1 & A2 & _). auto.
+Qed.
+
+Lemma P_dino_count_le_target : forall fuel c m num total tr m' num' tr',
+  Forall draw_ok tr -> popcount m = num -> num <= total ->
+  generate fuel c m num total tr = Ok (m', num', tr') -> popcount m' = num' /\ num' <= total.
+Proof.
+  intros fuel c m num total tr m' num' tr' Htr Hp Hle H.
+  destruct (generate_spec _ _ _ _ _ _ _ _ _ Htr Hp H) as (G1 & G2 & _). split; [exact G1 | lia].
+Qed.
+
+Lemma P_dino_target_le_cap : forall c lo hi u, dcfg_ok c -> draw_ok (DUnif lo hi u) ->
+  rat_leb hi (dRn c, dRd c) = true -> fst u * dP c / snd u <= cap c.
+Proof.
+  intros c lo hi u (C1 & C2 & C3 & C4 & C5 & C6 & C7) (U1 & U2 & U3 & U4 & U5) Hhi.
+  assert (rat_le u (dRn c, dRd c)).
+  { unfold rat_leb in Hhi. simpl in Hhi. apply (rat_le_trans u hi (dRn c, dRd c)); simpl; auto.
+    unfold rat_le; simpl. lia. }
+  pose proof (rat_floor_mono u (dRn c, dRd c) (dP c) ltac:(unfold dP; nia) U3 C7 H) as Hm.
+  exact Hm.
+Qed.
+
+Lemma P_dino_generate_terminates : forall c,
+  (forall m num total tr fuel, total - num <= Z.of_nat fuel -> generate fuel c m num total tr <> OutOfFuel) /\
+  (forall B tr, dino_collate c B tr <> OutOfFuel).
+Proof.
+  intros c. split.
+  - intros. apply generate_no_fuel. assumption.
+  - intros. apply dino_collate_no_fuel.
+Qed.
+
+Section IjepaProjections.
+  Variables (c : jcfg) (sizes : Z -> raw4) (ctr B : Z) (tr : list draw) (o : jout).
+  Hypothesis Hc : jcfg_ok c.
+  Hypothesis Hs : sizes_ok sizes.
+  Hypothesis HB : 0 <= B.
+  Hypothesis Htr : Forall draw_ok tr.
+  Hypothesis H : ijepa_collate c sizes ctr B tr = Ok o.
+
+  Let OK := proj1 (proj2 (proj2 (ijepa_collate_ok c sizes ctr B tr o Hc Hs HB Htr H))).
+
+  Lemma P_ijepa_indices_sorted_nodup_inrange :
+    Forall (fun l => strictly_inc 0 l (jH c * jW c) = true) (o_enc o ++ o_pred o).
+  Proof. exact (proj1 (proj2 (proj2 OK))). Qed.
+
+  Lemma P_ijepa_pred_rect_common_size :
+    len (o_pred o) = Z.of_nat (jNPred c) * B /\
+    Forall (is_rect (jH c) (jW c) (fst (o_psize o)) (snd (o_psize o))) (o_pred o).
+  Proof. split; [exact (proj1 (proj2 OK)) | exact (proj1 (proj2 (proj2 (proj2 (proj2 (proj2 OK))))))]. Qed.
+
+  Lemma P_ijepa_enc_disjoint_from_pred : premise c (o_psize o) (o_esize o) ->
+    forall j k b : nat, (j < jNEnc c)%nat -> (k < jNPred c)%nat -> Z.of_nat b < B ->
+      disjoint (row (o_enc o) B (Z.of_nat j) (Z.of_nat b)) (row (o_pred o) B (Z.of_nat k) (Z.of_nat b)).
+  Proof. exact (proj2 (proj2 (proj2 (proj2 (proj2 (proj2 OK)))))). Qed.
+
+  Lemma P_ijepa_common_length :
+    len (o_enc o) = Z.of_nat (jNEnc c) * B /\
+    (exists k, common_length k (o_enc o)) /\ (exists k, common_length k (o_pred o)).
+  Proof.
+    split; [exact (proj1 OK)|].
+    split; [exact (proj1 (proj2 (proj2 (proj2 OK)))) | exact (proj1 (proj2 (proj2 (proj2 (proj2 OK)))))].
+  Qed.
+
+  Lemma P_ijepa_no_retry_inside_premise : premise c (o_psize o) (o_esize o) ->
+    length tr = S (Z.to_nat B * (2 * jNPred c + 2 * jNEnc c)).
+  Proof. exact (proj2 (proj2 (proj2 (ijepa_collate_ok c sizes ctr B tr o Hc Hs HB Htr H)))). Qed.
+End IjepaProjections.
+
+Lemma P_ijepa_size_depends_only_on_step : forall c sizes ctr B1 B2 tr1 tr2 o1 o2,
+  ijepa_collate c sizes ctr B1 tr1 = Ok o1 -> ijepa_collate c sizes ctr B2 tr2 = Ok o2 ->
+  o_psize o1 = o_psize o2 /\ o_esize o1 = o_esize o2 /\ o_ctr o1 = ctr + 1 /\ o_ctr o2 = ctr + 1.
+Proof. exact ijepa_sizes_step. Qed.
+
+Lemma P_batch_passthrough : forall (A : Type) (batch : A),
+  (forall c has_ctx B tr b' r, dino_call c batch has_ctx B tr = Ok (b', r) ->
+     b' = batch /\ (has_ctx = false -> r = None /\ tr = [])) /\
+  (forall c sizes ctr has_ctx B tr b' ctr' r, ijepa_call c sizes ctr batch has_ctx B tr = Ok (b', ctr', r) ->
+     b' = batch /\ (has_ctx = false -> r = None /\ tr = [] /\ ctr' = ctr)).
+Proof.
+  intros A batch. split.
+  - intros. eapply dino_call_passthrough; eauto.
+  - intros. eapply ijepa_call_passthrough; eauto.
 Qed.
